@@ -52,7 +52,7 @@ def _check_json(o, path="$"):
 
 def validate(module: str, traces: list[dict], *, cfg: str | None = None, chunk: int = 1500,
              extra_doc: dict | None = None, timeout: int = 1800, dfs: bool = False,
-             verdict=None, label: str = "") -> list[tuple[dict, int]]:
+             verdict=None, label: str = "", cfg_text: str | None = None) -> list[tuple[dict, int]]:
     """Validate every trace (dict with 'hdr' and 'ev') with TLC. Returns the list of
     (trace, position) for rejected traces: position is the 1-based index of the first event
     that is NOT a step of the specification (the longest matched prefix has position-1 events)."""
@@ -68,8 +68,13 @@ def validate(module: str, traces: list[dict], *, cfg: str | None = None, chunk: 
         doc = _clamp(doc)
         _check_json(doc)
         f.write_text(json.dumps(doc))
-        res = tlc.run(module, cfg or f"{module}.cfg", workers=1, env={"TRACE_FILE": str(f)},
-                      timeout=timeout, dfs=dfs)
+        if cfg_text is not None:      # per-run constants: the cfg is written next to the trace, the modules come from spec/
+            cf = scratch() / f"{module}_{_n}.cfg"
+            cf.write_text(cfg_text)
+            res = tlc.run(module, cf.name, workers=1, env={"TRACE_FILE": str(f)}, timeout=timeout, dfs=dfs, cwd=scratch(), lib=True)
+        else:
+            res = tlc.run(module, cfg or f"{module}.cfg", workers=1, env={"TRACE_FILE": str(f)},
+                          timeout=timeout, dfs=dfs)
         m = re.search(r'<<"VALIDATED", (\d+)>>', res.out)
         if not m or int(m.group(1)) != len(part) or res.error or res.violated:
             raise MachineryFailure(f"trace validation run failed for {module}: "
